@@ -325,6 +325,21 @@ theorem methods_never_fail (lib : Str → Frame) (m : MethodRow) (hm : m ∈ Gen
   obtain ⟨r, hr, _⟩ := never_fails_and_identifies_context (stackAtLog lib m.chain us) _ depth hopt' ex
   exact ⟨r, hr⟩
 
+/-- GENERATED obligation: `_log` looks the calling thread and the calling process up on every call -/
+theorem context_looked_up_per_call : Gen.threadLookup = .perCall ∧ Gen.processLookup = .perCall := by decide
+
+/-- for EVERY history of logging calls – any contexts, i.e. any interleaving of threads, child
+processes, renamings of threads and processes between calls, whatever the context at import and
+whatever earlier calls cached – each call reads exactly the context it is made in -/
+theorem context_fresh_every_call (imported : Exec) (cache : List (Int × Exec)) (history : List Exec) :
+    runHistory imported cache history = history.map some := by
+  induction history generalizing cache with
+  | nil => rfl
+  | cons now rest ih =>
+    unfold runHistory
+    cases cache.lookup now.threadId <;>
+      simp [effectiveExec, lookupCtx, Gen.threadLookup, Gen.processLookup, ih]
+
 /-- `elapsed` never decreases over any sequence of calls whose clock readings do not decrease
 (the hypothesis is the wall clock's, not the code's) -/
 theorem elapsed_monotone_if_clock_monotone (start : Int) (readings : List Int)
